@@ -40,13 +40,14 @@ CONSTANTS
     DaemonSets,     \* subset of 0..2
     MaxTypesSet,    \* scheduling.MaxInstanceTypes values (0 = default 600)
     Policies,       \* subset of {"Strict", "BestEffort"}
-    Weak            \* "" | "*" | one of AllWeak
+    Weak            \* "" | "*" (every rule of AllWeak in one run) | "c13" (C13Weak) | one of AllWeak
 
 VARIABLES cfg, wk, pre, order, eff, left, oleft, claims, state, bad
 vars == <<cfg, wk, pre, order, eff, left, oleft, claims, state, bad>>
 
 AllWeak == {"order", "lowest", "ready", "chargeSum", "truncFirst", "rankDearest", "rankUnavailable", "truncMin", "ovhPerPod", "ovhNone",
             "staleHash", "simKeys", "noStartup", "noRelax"}
+C13Weak == {"truncMin", "ovhPerPod", "ovhNone", "staleHash", "simKeys", "noStartup"}     \* the rules behind C13 (b)-(d)
 AllFeats == {"plain", "taint", "prefer", "limit", "limit16", "zoneA", "teamX", "min2", "notReady", "startup"}
 
 ----------------------------------------------------------------------------
@@ -193,7 +194,7 @@ Pending == {k \in Batch : state[k] = "pending"}
 
 Init ==
     /\ cfg \in ScenarioSpace
-    /\ wk \in (IF Weak = "*" THEN AllWeak ELSE {Weak})
+    /\ wk \in (IF Weak = "*" THEN AllWeak ELSE IF Weak = "c13" THEN C13Weak ELSE {Weak})
     /\ pre = [treqs |-> [n \in {"P1", "P2", "P3"} |-> TemplateReqs(QOf(n))],
               ovh |-> [n \in {"P1", "P2", "P3"} |-> [t \in {"T1", "T2", "T3"} |-> SumReq(DaemonsFor(QOf(n), TypeByName(cfg, t)))]]]
     /\ order \in Orders
